@@ -6,7 +6,7 @@
 (* timestamps occur.  Checks the model-level clauses of C12 and is the generator of the     *)
 (* command paths replayed into the mock store (B2).                                         *)
 EXTENDS MVCCCmd, Json
-CONSTANTS Txn, MaxDepth, MaxTso
+CONSTANTS Txn, MaxDepth, MaxTso, EmitOn
 VARIABLES st, tso, tx, depth, hist
 mvars == <<st, tso, tx, depth, hist>>
 Ts(n) == n * 1000 + 1                      \* every allocation is a new millisecond
@@ -14,7 +14,8 @@ NoTx == [start |-> 0, commit |-> 0, fts |-> 0, done |-> FALSE]
 MCInit == st = EmptyStore /\ tso = 0 /\ tx = [t \in Txn |-> NoTx] /\ depth = 0 /\ hist = <<>>
 Primary(t) == CHOOSE k \in Key : \A j \in Key : k <= j     \* smallest key is every transaction's primary
 Started(t) == tx[t].start # 0
-Do(c) == st' = Apply(st, c).st /\ depth' = depth + 1 /\ hist' = Append(hist, c)
+Do(c) == /\ st' = Apply(st, c).st /\ depth' = depth + 1 /\ hist' = Append(hist, c)
+         /\ (EmitOn => PrintT(<<"SCN", ToJson(hist')>>))
 
 Begin(t) == /\ ~Started(t) /\ tso < MaxTso /\ tso' = tso + 1
             /\ tx' = [tx EXCEPT ![t].start = Ts(tso + 1)] /\ UNCHANGED <<st, depth, hist>>
@@ -108,6 +109,6 @@ InvMarker == \A t \in Txn, k \in Key : Started(t) =>
    /\ LET r == ResolveLock(st, 0, 0, tx[t].start, 0)
       IN (IsLocked(st.lock[k]) /\ st.lock[k].ts = tx[t].start) => RolledBack(r.st, k, tx[t].start)
 VIEW_ == <<st, tso, tx, depth>>
-\* generator: with hist in the state every path is a state; each maximal path is printed once
-Emit == depth = MaxDepth => PrintT(<<"SCN", ToJson(hist)>>)
+\* generator (Gen_MVCC.cfg): with `hist` hidden by the VIEW every distinct state is expanded once, and each of its
+\* outgoing transitions prints the first path that reached it plus that transition - an edge cover of the graph
 =============================================================================
